@@ -219,21 +219,8 @@ def check_resume(rep, rid_a, rid_b, core, res):
                'ResolveRegistry::resume removes an entry that may still be resolvable (a Many entry, or before the Never test)')
 
 
-def check(ctx, rep):
-    rep.rule('R09.a', 'the effect id is the slab key; lookup and removal use the id parameter only', floor=3)
-    rep.rule('R09.b', 'a registry entry is removed only once it has become Never, tested after resolve returned', floor=1)
-    rep.rule('R09.c', 'every effect returned by the core is registered once and serialised; none is dropped', floor=2)
-    rep.rule('R09.d', 'generated Effect::serialize pairs each variant with the same-named Ffi constructor; From<Request<Op>> builds the variant of Op', floor=20)
-    core = ctx.crate('default', 'crux_core')
-    probe = ctx.crate('controls', 'crux_verif_controls')
-    if core is None or probe is None:
-        rep.missing('R09.a', 'crux_core / probe facts')
-        return
-    reg = c06.method(core, 'crux_core::bridge::registry::ResolveRegistry', 'register')
-    res = c06.method(core, 'crux_core::bridge::registry::ResolveRegistry', 'resume')
-    if reg is None or res is None:
-        rep.missing('R09.a', 'ResolveRegistry::register / resume')
-        return
+def check_register(rep, rid, core, reg):
+    """every effect gets the slab key of its own resolver as its id (on every path), and nothing renumbers the slab"""
     # R09.a register
     inserts = [(bb, t) for bb, t in reg.calls('slab::Slab::insert')]
     sers = [(bb, t) for bb, t in reg.calls('crux_core::core::effect::Effect::serialize')]
@@ -259,8 +246,7 @@ def check(ctx, rep):
         src_ok = all(o.kind == 'arg' and o.n == 2 for o in origins(reg, st['args'][0]))
         ok = id_ok and resolver_ok and effect_ok and src_ok
         detail = 'id from the insert key: %s; inserted resolver is serialize().1: %s; returned effect is serialize().0: %s' % (id_ok, resolver_ok, effect_ok)
-    rep.expect('R09.a', ok, 'register', detail or 'shape', 'ResolveRegistry::register: the returned id is not the slab key of this effect\'s resolver (%s)' % detail)
-    check_resume(rep, 'R09.a', 'R09.b', core, res)
+    rep.expect(rid, ok, 'register', detail or 'shape', 'ResolveRegistry::register: the returned id is not the slab key of this effect\'s resolver (%s)' % detail)
     # R09.a (keys are ids): the slab key of an entry IS the EffectId the shell holds, so nothing may move entries to other keys
     moved = []
     n_slab = 0
@@ -273,9 +259,39 @@ def check(ctx, rep):
                 n_slab += 1
                 if last_seg(c) not in SLAB_KEY_STABLE:
                     moved.append('%s at %s' % (last_seg(c), f.where(bb)))
-    rep.expect('R09.a', n_slab >= 3 and not moved, 'registry|keys-are-stable', '%d slab operations on the registry, none of which renumbers entries' % n_slab,
+    rep.expect(rid, n_slab >= 3 and not moved, 'registry|keys-are-stable', '%d slab operations on the registry, none of which renumbers entries' % n_slab,
                'the bridge registry\'s slab is used through %s: entries can end up under another key than the EffectId the shell was given, so '
                'pending responses are rejected or resume another request' % moved)
+
+
+def check(ctx, rep):
+    rep.rule('R09.a', 'the effect id is the slab key; lookup and removal use the id parameter only', floor=3)
+    rep.rule('R09.b', 'a registry entry is removed only once it has become Never, tested after resolve returned', floor=1)
+    rep.rule('R09.c', 'every effect returned by the core is registered once and serialised; none is dropped', floor=2)
+    rep.rule('R09.d', 'generated Effect::serialize pairs each variant with the same-named Ffi constructor; From<Request<Op>> builds the variant of Op', floor=20)
+    core = ctx.crate('default', 'crux_core')
+    probe = ctx.crate('controls', 'crux_verif_controls')
+    if core is None or probe is None:
+        rep.missing('R09.a', 'crux_core / probe facts')
+        return
+    reg = c06.method(core, 'crux_core::bridge::registry::ResolveRegistry', 'register')
+    res = c06.method(core, 'crux_core::bridge::registry::ResolveRegistry', 'resume')
+    if reg is None or res is None:
+        rep.missing('R09.a', 'ResolveRegistry::register / resume')
+        return
+    check_register(rep, 'R09.a', core, reg)
+    check_resume(rep, 'R09.a', 'R09.b', core, res)
+    # R09.f: the view the bridge hands out is the serialisation of the core's view at that moment: each view() runs Core::view and
+    # returns the buffer that serialisation wrote (no copy kept from an earlier call can be returned)
+    rep.rule('R09.f', 'Bridge::view serialises a fresh Core::view on every path to its Ok return', floor=2)
+    from rules.common import Summaries
+    sm9 = Summaries([core])
+    for f in [g for g in core.built if g.kind == 'AssocFn' and g.name == 'view' and '::bridge::' in g.npath and not g.j.get('exp')]:
+        sites = sm9.sites(f, ['crux_core::core::Core::view'], 'must')
+        fresh = bool(sites) and not any(r_ in f.reachable([0], removed_blocks=sites) for r_ in f.return_blocks())
+        rep.expect('R09.f', fresh, '%s|fresh-view' % f.kpath, 'no return is reachable without a (transitive) call of Core::view',
+                   '%s can return Ok without having serialised the current view of the core (a cached copy would go stale when a call fails after '
+                   'update has run)' % f.path)
     # R09.e: an id stays bound to its request for as long as the request can be resolved: the entry's state only changes
     # by a one-shot being consumed (shared with C02 R02.a, serialised resolver only)
     rep.rule('R09.e', 'a registry entry changes state only when a one-shot is consumed; a stream entry never changes state', floor=3)
